@@ -162,6 +162,7 @@ func runC01(c *Ctx) {
 	c01Checkers(c)
 	c01Gates(c)
 	clientIdentityApplied(c, "C01-D9")
+	c01EnginesAlwaysBuilt(c)
 	// D8: an allow-listed query's upstream answer is delivered unchanged
 	if skipped, fn := skipReasons(p); fn != nil {
 		r.Check(skipped["NotFilteredAllowList"], "C01-D8", "allow-listed-skips-response-filtering", p.FnPos(fn),
@@ -824,4 +825,60 @@ func c01Gates(c *Ctx) {
 		}
 	}
 	r.Floor("C01-D7", "engine-stores", nE, 2)
+}
+
+// c01EnginesAlwaysBuilt: D7 (cont.).  A client with its own filtering switch on
+// is filtered even when the global switch is off, so the rule lists handed to
+// the engines never depend on the global switch: what enableFiltersLocked
+// passes to setFilters is the collected list on every path, never nothing.
+func c01EnginesAlwaysBuilt(c *Ctx) {
+	p, r := c.P, c.R
+	fn := p.Fn("(*filtering.DNSFilter).enableFiltersLocked")
+	if fn == nil {
+		r.Undecided("C01-D7", "enableFiltersLocked", "-", "anchor not found")
+		return
+	}
+	calls := core.CallsTo(fn, "(*filtering.DNSFilter).setFilters")
+	if len(calls) == 0 {
+		r.Undecided("C01-D7", "enableFiltersLocked", p.FnPos(fn), "the setFilters call was not found")
+		return
+	}
+	ok := true
+	for _, call := range calls {
+		for i := 1; i <= 2 && i < len(call.Common.Args); i++ {
+			// a nil is fine as the start value of the loop that collects the lists (no list configured), not as a
+			// replacement of the collected list
+			seen := map[ssa.Value]bool{}
+			var walk func(v ssa.Value)
+			walk = func(v ssa.Value) {
+				if seen[v] {
+					return
+				}
+				seen[v] = true
+				ph, isPhi := v.(*ssa.Phi)
+				if !isPhi {
+					if core.IsNilConst(v) {
+						ok = false
+					}
+					return
+				}
+				isLoopHeader := false
+				for _, pb := range ph.Block().Preds {
+					if ph.Block().Dominates(pb) {
+						isLoopHeader = true
+					}
+				}
+				for _, e := range ph.Edges {
+					if core.IsNilConst(e) && isLoopHeader {
+						continue
+					}
+					walk(e)
+				}
+			}
+			walk(call.Arg(i))
+		}
+	}
+	r.Check(ok, "C01-D7", "engines-built-from-all-lists", p.FnPos(fn),
+		"the block and allow lists handed to the engines are the collected lists on every path",
+		"on some path the engines are built from no lists at all (e.g. while the global filtering switch is off): clients with their own filtering enabled are then matched against empty engines and blocked names are forwarded")
 }
